@@ -187,6 +187,12 @@ Theorem C18_late_pings_bounded : forall fail np pending evs,
   <= (if pending then 1 else 0) + count_fire evs.
 Proof. exact late_pings_bounded. Qed.
 
+(* Since the tick branch polls quit before pinging: once quit is closed NO ping follows,
+   pending tick or not, whatever the runtime picks. *)
+Theorem C18_no_ping_once_quit_closed : forall fail np pending evs,
+  count is_ping (snd (ka_run fail (Running np) (resolve pending true evs))) = 0.
+Proof. exact no_ping_once_closed. Qed.
+
 (* ...and with no tick pending the very next select observes quit: no ping at all. *)
 Theorem C18_quit_seen_at_once : forall fail np b evs,
   ka_run fail (Running np) (resolve false true (ESelect b :: evs))
@@ -199,7 +205,40 @@ Theorem C18_no_quit_before_close : forall evs pending,
   count is_quit (resolve pending false evs) = 0.
 Proof. exact resolve_no_quit_before_close. Qed.
 
-(* Outside the domain: a non-positive interval makes time.NewTicker panic. *)
+(* The transport object is re-used across reconnections: the Close that follows a failed
+   keep-alive closes the connection it was entered with (the one the ping failed on), not the
+   one a reconnection has installed during its wait. *)
+Theorem C18_close_hits_own_connection : forall at_entry after_wait,
+  xmpp_close_target at_entry after_wait = at_entry.
+Proof. reflexivity. Qed.
+
+(* One keep-alive loop per established session over any history of Resume attempts on one
+   client: an attempt that reports failure (connect error, or the PostResumeHook's error)
+   starts none and leaves no session behind. *)
+Theorem C18_one_loop_per_session : forall h : list attempt,
+  loops_of h = count is_att_ok h /\
+  (forall a, In a h -> loops_started a = (if attempt_leaves_session a then 1 else 0)).
+Proof.
+  intros h. split; [apply loops_of_count|]. intros a _. destruct a; reflexivity.
+Qed.
+
+(* Through NewClient every configured interval is usable: a non-positive one is replaced by
+   the default, so the loop started by Connect/Resume never hits the panic below. *)
+Theorem C18_client_interval : forall cfg fail sched,
+  (0 < client_interval cfg)%Z /\
+  ((0 < cfg)%Z -> client_interval cfg = cfg) /\
+  keepalive (client_interval cfg) fail sched = ka_trace fail sched.
+Proof.
+  intros cfg fail sched.
+  assert (Hp : (0 < client_interval cfg)%Z).
+  { unfold client_interval, default_interval. destruct (cfg <=? 0)%Z eqn:He; [lia|]. apply Z.leb_gt in He. lia. }
+  split; [exact Hp|]. split.
+  - intros Hc. unfold client_interval. destruct (cfg <=? 0)%Z eqn:He; [apply Z.leb_le in He; lia|reflexivity].
+  - unfold keepalive. destruct (client_interval cfg <=? 0)%Z eqn:He; [apply Z.leb_le in He; lia|reflexivity].
+Qed.
+
+(* Outside the domain (keepalive called directly, not through NewClient): a non-positive
+   interval makes time.NewTicker panic. *)
 Theorem C18_nonpositive_interval : forall interval fail sched,
   (interval <= 0)%Z -> keepalive interval fail sched = [APanic].
 Proof.
@@ -214,15 +253,17 @@ Proof.
 Qed.
 
 (* non-vacuity: the third ping fails while the schedule goes on offering ticks and quit;
-   and a quit chosen after a late tick *)
+   and a tick pending when quit is closed: the runtime picks the tick, the loop still stops
+   without pinging; three attempts on one client, one loop *)
 Example C18_example :
   keepalive 2000 (fun k => Nat.eqb k 3) [STick; STick; STick; STick; SQuit]
   = [APingOk; APingOk; APingFail; ATickerStop; AClose; AReturn] /\
   taken (fun k => Nat.eqb k 3) 0 [STick; STick; STick; STick; SQuit] = [STick; STick; STick] /\
   ka_trace (fun _ => false)
     (resolve false false [EFire; ESelect false; EFire; ECloseQuit; ESelect true; ESelect true; EFire; ESelect true])
-  = [APingOk; APingOk; ATickerStop; AReturn] /\
-  wire [APingOk; APingOk; ATickerStop; AReturn] = [10%N; 10%N].
+  = [APingOk; ATickerStop; AReturn] /\
+  wire [APingOk; APingOk; ATickerStop; AReturn] = [10%N; 10%N] /\
+  loops_of [AttHookFails; AttConnectFails; AttOk] = 1 /\ client_interval (-5) = 30000000%Z.
 Proof. repeat split; reflexivity. Qed.
 
 Print Assumptions C18_one_ping_per_tick.
@@ -241,5 +282,9 @@ Print Assumptions C18_ping_is_whitespace.
 Print Assumptions C18_late_pings_bounded.
 Print Assumptions C18_quit_seen_at_once.
 Print Assumptions C18_no_quit_before_close.
+Print Assumptions C18_no_ping_once_quit_closed.
+Print Assumptions C18_close_hits_own_connection.
+Print Assumptions C18_one_loop_per_session.
+Print Assumptions C18_client_interval.
 Print Assumptions C18_nonpositive_interval.
 Print Assumptions C18_positive_interval.
